@@ -193,7 +193,7 @@ pub fn case() -> impl Strategy<Value = Case> {
 }
 
 fn groups(g: &mut Groups) {
-    g.prop("twin", 15_000, 300_000, || case(), check_case);
+    g.prop("twin", 15_000, 1_800_000, || case(), check_case);
     super::e3::c17_groups(g);
     let _ = vensure_unused;
 }
